@@ -10,7 +10,7 @@ RULE = ("for each seeded problem (noise modes det/auto/he x geometries) an unfau
         "found from a reference run of a tight, coarse-mesh problem); the same problem is then "
         "re-run with a target that misbehaves at its k-th call ONLY: quick = 2 positions per phase, thorough = EVERY k; fault kinds: "
         "raise {ValueError, RuntimeError, ZeroDivisionError, LinAlgError, KeyError, IndexError, custom exception with non-trivial "
-        "constructor}; return NaN, +inf, -inf, complex (also with a round-off sized imaginary part, numpy and Python spellings), length-2 array, list, None, empty array, np.nan scalar; with specified noise: "
+        "constructor, StopIteration, AttributeError, AssertionError, OverflowError, TypeError, LookupError, ArithmeticError, OSError, NotImplementedError, FloatingPointError}; return NaN, +inf, -inf, complex (also with a round-off sized imaginary part, numpy and Python spellings), length-2 array, list, None, empty array, np.nan scalar; with specified noise: "
         "bare scalar, 3-tuple, list pair, 1-tuple, SD in {0, -1, NaN, +inf, -inf, complex, length-2 array}. Oracle: the exception "
         "escaping optimize() IS the injected object (raises) / a ValueError (invalid values); the target is never called again; "
         "func_count == k; every logged value finite, SDs positive finite, the faulty point not logged unless validly evaluated before. "
@@ -19,7 +19,11 @@ RULE = ("for each seeded problem (noise modes det/auto/he x geometries) an unfau
 RUN_KW = {"quick": dict(timeout_case=600, wall_cap=900), "thorough": dict(timeout_case=3000, wall_cap=3400)}
 ASSUMPTIONS = ["SD forms not listed in the statement (None, strings) are recorded, not judged"]
 
-RAISES = ["raise:ValueError", "raise:RuntimeError", "raise:ZeroDivisionError", "raise:LinAlgError", "raise:KeyError", "raise:IndexError", "raise:Custom"]
+RAISES = ["raise:ValueError", "raise:RuntimeError", "raise:ZeroDivisionError", "raise:LinAlgError", "raise:KeyError", "raise:IndexError", "raise:Custom",
+          # exception classes that Python's own protocols give a meaning to (iteration, attribute lookup, arithmetic, ...):
+          # a target failing with one of them must not be mistaken for a normal control-flow signal
+          "raise:StopIteration", "raise:AttributeError", "raise:AssertionError", "raise:OverflowError", "raise:TypeError", "raise:LookupError",
+          "raise:ArithmeticError", "raise:OSError", "raise:NotImplementedError", "raise:FloatingPointError"]
 VALS = ["val:nan", "val:inf", "val:-inf", "val:complex", "val:vec2", "val:list2", "val:none", "val:empty", "val:npnan", "val:arrnan", "val:complex-tiny-np", "val:complex-tiny-py"]
 HE = ["form:scalar", "form:triple", "form:listpair", "form:single", "sd:zero", "sd:neg", "sd:nan", "sd:inf", "sd:-inf", "sd:complex", "sd:vec2", "sd:arrneg"]
 
